@@ -144,6 +144,11 @@ func (m MethodScope) populateImports(t types.Type, imports map[string]*Package) 
 		for i := 0; i < t.NumEmbeddeds(); i++ {
 			m.populateImports(t.EmbeddedType(i), imports)
 		}
+
+	case *types.Union: // type set of a constraint, ex: a.Type | ~b.Type
+		for i := 0; i < t.Len(); i++ {
+			m.populateImports(t.Term(i).Type(), imports)
+		}
 	}
 }
 
